@@ -64,14 +64,14 @@ impl ParsedDateTime {
 }
 
 pub struct ParsedDuration {
-    pub years: u32,
-    pub months: u32,
-    pub weeks: u32,
-    pub days: u32,
-    pub hours: u32,
-    pub minutes: u32,
-    pub seconds: u32,
-    pub microseconds: u32,
+    pub years: u64,
+    pub months: u64,
+    pub weeks: u64,
+    pub days: u64,
+    pub hours: u64,
+    pub minutes: u64,
+    pub seconds: u64,
+    pub microseconds: u64,
 }
 
 impl ParsedDuration {
@@ -92,17 +92,21 @@ impl ParsedDuration {
     ///
     /// `digits` are the decimal digits following the separator and
     /// `unit` is the length of the component's unit in microseconds.
-    fn add_fraction(&mut self, digits: &[u8], unit: u64) {
+    ///
+    /// Returns `None` if a component no longer fits.
+    fn add_fraction(&mut self, digits: &[u8], unit: u64) -> Option<()> {
         let mut micros = fraction_to_microseconds(digits, unit);
 
-        self.days += (micros / US_PER_DAY) as u32;
+        self.days = self.days.checked_add(micros / US_PER_DAY)?;
         micros %= US_PER_DAY;
-        self.hours += (micros / US_PER_HOUR) as u32;
+        self.hours = self.hours.checked_add(micros / US_PER_HOUR)?;
         micros %= US_PER_HOUR;
-        self.minutes += (micros / US_PER_MINUTE) as u32;
+        self.minutes = self.minutes.checked_add(micros / US_PER_MINUTE)?;
         micros %= US_PER_MINUTE;
-        self.seconds += (micros / US_PER_SECOND) as u32;
-        self.microseconds += (micros % US_PER_SECOND) as u32;
+        self.seconds = self.seconds.checked_add(micros / US_PER_SECOND)?;
+        self.microseconds += micros % US_PER_SECOND;
+
+        Some(())
     }
 }
 
@@ -188,6 +192,10 @@ impl<'a> Parser<'a> {
             index: self.idx,
             message,
         }
+    }
+
+    fn too_large_error(&mut self) -> ParseError {
+        self.parse_error("Number too large in duration".to_string())
     }
 
     fn unexpected_character_error(
@@ -681,7 +689,9 @@ impl<'a> Parser<'a> {
                                 duration.hours += value;
 
                                 if let Some(fraction) = op_fraction {
-                                    duration.add_fraction(fraction, US_PER_HOUR);
+                                    duration
+                                        .add_fraction(fraction, US_PER_HOUR)
+                                        .ok_or_else(|| self.too_large_error())?;
                                 }
                             }
                             'M' => {
@@ -694,14 +704,18 @@ impl<'a> Parser<'a> {
                                 duration.minutes += value;
 
                                 if let Some(fraction) = op_fraction {
-                                    duration.add_fraction(fraction, US_PER_MINUTE);
+                                    duration
+                                        .add_fraction(fraction, US_PER_MINUTE)
+                                        .ok_or_else(|| self.too_large_error())?;
                                 }
                             }
                             'S' => {
                                 duration.seconds = value;
 
                                 if let Some(fraction) = op_fraction {
-                                    duration.add_fraction(fraction, US_PER_SECOND);
+                                    duration
+                                        .add_fraction(fraction, US_PER_SECOND)
+                                        .ok_or_else(|| self.too_large_error())?;
                                 }
                             }
                             _ => {
@@ -754,7 +768,9 @@ impl<'a> Parser<'a> {
                                 duration.weeks = value;
 
                                 if let Some(fraction) = op_fraction {
-                                    duration.add_fraction(fraction, US_PER_WEEK);
+                                    duration
+                                        .add_fraction(fraction, US_PER_WEEK)
+                                        .ok_or_else(|| self.too_large_error())?;
                                 }
                             }
                             'D' => {
@@ -766,7 +782,9 @@ impl<'a> Parser<'a> {
 
                                 duration.days += value;
                                 if let Some(fraction) = op_fraction {
-                                    duration.add_fraction(fraction, US_PER_DAY);
+                                    duration
+                                        .add_fraction(fraction, US_PER_DAY)
+                                        .ok_or_else(|| self.too_large_error())?;
                                 }
                             }
                             _ => {
@@ -790,7 +808,7 @@ impl<'a> Parser<'a> {
         Ok(())
     }
 
-    fn parse_duration_number_frac(&mut self) -> Result<(u32, Option<&'a [u8]>), ParseError> {
+    fn parse_duration_number_frac(&mut self) -> Result<(u64, Option<&'a [u8]>), ParseError> {
         let value = self.parse_duration_number()?;
 
         if !matches!(self.current, '.' | ',') {
@@ -809,14 +827,17 @@ impl<'a> Parser<'a> {
         Ok((value, Some(&src.as_bytes()[start..self.idx])))
     }
 
-    fn parse_duration_number(&mut self) -> Result<u32, ParseError> {
-        let Some(mut value) = self.current.to_digit(10) else {
+    fn parse_duration_number(&mut self) -> Result<u64, ParseError> {
+        let Some(digit) = self.current.to_digit(10) else {
             return Err(self.parse_error("Invalid number in duration".to_string()));
         };
+        let mut value = u64::from(digit);
 
         while let Some(digit) = self.inc().and_then(|ch| ch.to_digit(10)) {
-            value *= 10;
-            value += digit;
+            value = value
+                .checked_mul(10)
+                .and_then(|value| value.checked_add(u64::from(digit)))
+                .ok_or_else(|| self.too_large_error())?;
         }
 
         Ok(value)
